@@ -11,5 +11,14 @@ later = sum(1 for m in metas if m.get('detected')) - first
 notdet = n - first - later
 counts = f"{n} (caught by the quick check of their property at the first attempt: {first}; missed at first, or first attempt without a verdict, and caught after a general strengthening: {later}; not detected: {notdet})"
 s = re.sub(r'<!-- SEEDED-COUNTS-BEGIN -->.*?<!-- SEEDED-COUNTS-END -->', lambda m: '<!-- SEEDED-COUNTS-BEGIN -->' + counts + '<!-- SEEDED-COUNTS-END -->', s, flags=re.S)
+import os, collections
+gen = collections.defaultdict(lambda: [0, 0])
+for f in glob.glob('/verif/seeded/*/meta.json'):
+    m = json.load(open(f)); name = os.path.basename(os.path.dirname(f))
+    suf = re.match(r'C\d\d([a-z]?)-', name).group(1) or 'a'
+    ok = (m.get('first_evaluation') or {}).get('exit') == 1 and not (m.get('after_strengthening') or '').startswith('NOT a first')
+    gen[suf][0] += 1; gen[suf][1] += ok
+gens = ', '.join(f"{v[1]} of {v[0]}" for k, v in sorted(gen.items()))
+s = re.sub(r'<!-- SEEDED-GEN-BEGIN -->.*?<!-- SEEDED-GEN-END -->', lambda m: '<!-- SEEDED-GEN-BEGIN -->' + gens + '<!-- SEEDED-GEN-END -->', s, flags=re.S)
 open(p, 'w').write(s)
 print(n, 'seeded changes;', first, 'caught at first attempt;', n - first, 'needed strengthening')
